@@ -25,7 +25,8 @@ RenderScalar(v, style) == IF v.bare /\ style = "min" THEN v.s ELSE Quoted(v)
 
 RECURSIVE JoinVals(_, _, _)
 JoinVals(vs, style, sep) ==
-    IF Len(vs) = 1 THEN RenderScalar(vs[1], style)
+    IF vs = <<>> THEN ""                                   \* the empty list: `[]', `[ ]', ...
+    ELSE IF Len(vs) = 1 THEN RenderScalar(vs[1], style)
     ELSE RenderScalar(vs[1], style) \o sep \o JoinVals(Tail(vs), style, sep)
 
 \* ch = [ws: whitespace used where it is optional, gap: whitespace used where some is required,
